@@ -110,7 +110,7 @@ MAXU = [None, None, None, None, 0, 0.5, 1, 1.0, 1.5, 2, 2.5, 1.2, 3.75, float('i
 
 def _gen_tree(rng, malformed):
     ctr = {'id': 0}
-    orders = list(range(1, 400))
+    orders = list(range(1, 4000))      # more than any tree can hold (up to ~120 allocations x 12 instances)
     rng.shuffle(orders)
     max_depth = rng.choice([0, 1, 1, 2, 2, 3, 3, 4])
     many = rng.random() < 0.5
